@@ -19,6 +19,7 @@ import (
 	"github.com/Fantom-foundation/lachesis-base/inter/idx"
 	"github.com/Fantom-foundation/lachesis-base/inter/pos"
 	"github.com/Fantom-foundation/lachesis-base/kvdb"
+	"github.com/Fantom-foundation/lachesis-base/kvdb/flushable"
 	"github.com/Fantom-foundation/lachesis-base/kvdb/memorydb"
 	"github.com/Fantom-foundation/lachesis-base/lachesis"
 	"github.com/Fantom-foundation/lachesis-base/utils/adapters"
@@ -60,19 +61,20 @@ type blockRec struct {
 }
 
 type inst struct {
-	r        *consRunner
-	mainDB   kvdb.Store
-	epochDBs map[idx.Epoch]kvdb.Store
-	store    *abft.Store
-	lch      *abft.IndexedLachesis
-	index    *vecfc.Index
-	input    *evStore
-	blocks   []blockRec
-	allBlocks []blockRec // every block since the instance was created (kept as handed over)
-	noApplyMod uint64    // > 0: blocks whose frame is a multiple of it get no ApplyEvent callback
-	spec     map[uint64]*dag.MutableBaseEvent // event objects of speculative builds (for `rebuild`)
-	rootsCfg int // 0: cache 0/0, 1: 1/1, 2: 2/2, 3: lite default
-	critErr  string
+	r          *consRunner
+	mainDB     kvdb.Store
+	epochDBs   map[idx.Epoch]kvdb.Store
+	store      *abft.Store
+	lch        *abft.IndexedLachesis
+	index      *vecfc.Index
+	input      *evStore
+	blocks     []blockRec
+	allBlocks  []blockRec                       // every block since the instance was created (kept as handed over)
+	noApplyMod uint64                           // > 0: blocks whose frame is a multiple of it get no ApplyEvent callback
+	flushy     bool                             // databases are flushable write-back buffers, flushed after every op
+	spec       map[uint64]*dag.MutableBaseEvent // event objects of speculative builds (for `rebuild`)
+	rootsCfg   int                              // 0: cache 0/0, 1: 1/1, 2: 2/2, 3: lite default
+	critErr    string
 }
 
 type consRunner struct {
@@ -118,7 +120,12 @@ func (in *inst) boot(genesis *pos.Validators) {
 	getEDB := func(epoch idx.Epoch) kvdb.Store {
 		db, ok := in.epochDBs[epoch]
 		if !ok {
-			db = &keepDB{Store: memorydb.New()}
+			if in.flushy {
+				// the application keeps its databases behind write-back buffers that it flushes after every event
+				db = &keepDB{Store: flushable.Wrap(memorydb.New())}
+			} else {
+				db = &keepDB{Store: memorydb.New()}
+			}
 			in.epochDBs[epoch] = db
 		}
 		return db
@@ -266,7 +273,33 @@ func kvOf(ws []string) map[string]string {
 	return m
 }
 
+// flushAll flushes the write-back buffers of the instances that use them (after every op, as an
+// application does after every processed event)
+func (r *consRunner) flushAll() {
+	for _, in := range r.insts {
+		if !in.flushy {
+			continue
+		}
+		dbs := []kvdb.Store{in.mainDB}
+		for _, d := range in.epochDBs {
+			dbs = append(dbs, d)
+		}
+		for _, d := range dbs {
+			if k, ok := d.(*keepDB); ok {
+				if fl, ok := k.Store.(*flushable.Flushable); ok {
+					_ = fl.Flush()
+				}
+			}
+		}
+	}
+}
+
 func (r *consRunner) Step(line string) string {
+	defer r.flushAll()
+	return r.step(line)
+}
+
+func (r *consRunner) step(line string) string {
 	f := Fields(line)
 	switch f[0] {
 	case "restart", "reset", "build", "rebuild", "process", "fc", "hb", "roots", "state", "allblocks", "noapply":
@@ -286,14 +319,22 @@ func (r *consRunner) Step(line string) string {
 		r.seals[[2]uint64{Atou(f[1]), Atou(f[2])}] = parseVals(f[3:])
 		return "ok"
 	case "inst": // inst <k> <rootsCfg>
-		in := &inst{r: r, mainDB: memorydb.New(), epochDBs: map[idx.Epoch]kvdb.Store{}, input: &evStore{m: map[hash.Event]dag.Event{}},
-			rootsCfg: int(Atou(f[2]))}
+		in := &inst{r: r, mainDB: &keepDB{Store: memorydb.New()}, epochDBs: map[idx.Epoch]kvdb.Store{}, input: &evStore{m: map[hash.Event]dag.Event{}},
+			rootsCfg: int(Atou(f[2])) % 4, flushy: Atou(f[2]) >= 4}
+		if in.flushy {
+			in.mainDB = &keepDB{Store: flushable.Wrap(memorydb.New())}
+		}
 		r.insts[Atou(f[1])] = in
 		in.boot(r.genesis)
 		return in.stateStr()
-	case "restart":
+	case "restart": // restart <k> [clean]: a new Store / index / Lachesis over the same DBs; `clean` closes the old store first
 		in := r.insts[Atou(f[1])]
 		in.blocks = nil
+		if len(f) > 2 && f[2] == "clean" {
+			if err := in.store.Close(); err != nil {
+				return "err close: " + err.Error()
+			}
+		}
 		in.boot(nil)
 		return in.stateStr() + " " + r.fmtBlocks(in.blocks)
 	case "reset": // reset <k> <epoch> id:w ...
@@ -588,6 +629,11 @@ func genConsCase(r *Rand, tier string, w *bufio.Writer) {
 		}
 		return strings.Join(p, " ")
 	}
+	if r.Chance(1, 12) {
+		// a genesis set whose total weight exceeds 2^31-1 is refused by the builder (quorum arithmetic is 32-bit)
+		emit("vals %d:%d %d:%d", ids[0], []uint64{1<<31 - 1, 1 << 31, 1<<32 - 1, 1500000000}[r.Intn(4)], ids[0]+100, []uint64{1, 1 << 30, 1500000000}[r.Intn(3)])
+		emit("seal 9 1 %d:%d %d:1", ids[0], uint64(1<<31-1), ids[0]+100)
+	}
 	emit("vals %s", valsStr(ids, ws))
 	// cheaters: weight strictly below one third
 	cheater := map[uint64]bool{}
@@ -675,7 +721,7 @@ func genConsCase(r *Rand, tier string, w *bufio.Writer) {
 	catchUp := false
 	ninst := 2 + r.Intn(2)
 	for k := 0; k < ninst; k++ {
-		emit("inst %d %d", k, (k+r.Intn(4))%4)
+		emit("inst %d %d", k, (k+r.Intn(4))%4+4*r.Intn(2))
 	}
 	if r.Chance(1, 4) {
 		emit("noapply %d %d", r.Intn(ninst), 1+r.Intn(3))
@@ -933,7 +979,7 @@ func genConsCase(r *Rand, tier string, w *bufio.Writer) {
 		}
 		if r.Chance(1, 25) || restartHeavy {
 			// restart-heavy scenarios restart an instance at every event boundary (C08)
-			emit("restart %d", r.Intn(ninst))
+			emit("restart %d%s", r.Intn(ninst), []string{"", " clean"}[r.Intn(2)])
 			if restartHeavy {
 				emit("restart 0")
 			}
